@@ -801,8 +801,13 @@ struct Visitor : RecursiveASTVisitor< Visitor >
          return true;
       if( f->isDefaulted() )
          return true;
-      if( !wanted( f ) )
+      if( !wanted( f ) ) {
+         // vu::touch< T... >() in the universe names classes whose record facts are wanted
+         if( f->getQualifiedNameAsString() == "vu::touch" )
+            if( const auto* l = f->getTemplateSpecializationArgs() )
+               (void)D.targs( l );
          return true;
+      }
       std::string u = D.usr( f );
       if( !seen.insert( u ).second )
          return true;
